@@ -617,6 +617,8 @@ struct Resp {
     status: u16,
     head: String,
     body: Vec<u8>,
+    /// 200 on a subscription but neither an end-of-query nor an error event arrived
+    silent: bool,
 }
 
 fn find(h: &[u8], n: &[u8]) -> Option<usize> {
@@ -640,6 +642,7 @@ async fn http(addr: SocketAddr, method: &str, path: &str, headers: &[(&'static s
         let mut buf: Vec<u8> = vec![];
         let mut chunk = [0u8; 8192];
         let mut head_end = None;
+        let mut silent = false;
         loop {
             if head_end.is_none() {
                 head_end = find(&buf, b"\r\n\r\n").map(|i| i + 4);
@@ -660,7 +663,20 @@ async fn http(addr: SocketAddr, method: &str, path: &str, headers: &[(&'static s
                     Read::Full => {}
                 }
             }
-            match s.read(&mut chunk).await {
+            // a subscription whose matcher died earlier stays registered: a later subscriber of the same SQL gets
+            // 200 and then no event at all.  Bounded wait for the end-of-query event, then go on (tagged).
+            let next = if mode == Read::Eoq && head_end.is_some() {
+                match tokio::time::timeout(Duration::from_secs(8), s.read(&mut chunk)).await {
+                    Ok(r) => r,
+                    Err(_) => {
+                        silent = true;
+                        break;
+                    }
+                }
+            } else {
+                s.read(&mut chunk).await
+            };
+            match next {
                 Ok(0) => break,
                 Ok(n) => buf.extend_from_slice(&chunk[..n]),
                 Err(e) => {
@@ -670,13 +686,13 @@ async fn http(addr: SocketAddr, method: &str, path: &str, headers: &[(&'static s
         }
         if buf.is_empty() {
             // connection closed without a single byte: the connection task died (handler panic)
-            return Ok(Resp { status: 0, head: String::new(), body: vec![] });
+            return Ok(Resp { status: 0, head: String::new(), body: vec![], silent: false });
         }
         let he = head_end.ok_or_else(|| format!("no response head in {} bytes", buf.len()))?;
         let line = buf.split(|b| *b == b'\r').next().unwrap_or(&[]);
         let line = String::from_utf8_lossy(line).to_string();
         let status: u16 = line.split(' ').nth(1).and_then(|x| x.parse().ok()).ok_or_else(|| format!("bad status line {line:?}"))?;
-        Ok(Resp { status, head: String::from_utf8_lossy(&buf[..he]).to_ascii_lowercase(), body: buf[he..].to_vec() })
+        Ok(Resp { status, head: String::from_utf8_lossy(&buf[..he]).to_ascii_lowercase(), body: buf[he..].to_vec(), silent })
     };
     match tokio::time::timeout(Duration::from_secs(60), fut).await {
         Ok(r) => r,
@@ -891,6 +907,9 @@ async fn exec_stmt(w: &World, toks: &[&str]) -> Result<OpOut, String> {
         fails.push(format!("correct credentials were rejected on {path}"));
     }
     let mut tags = vec![format!("{kind}:{out}"), format!("stmt:{}", toks[2].split('-').next().unwrap_or("?"))];
+    if resp.silent {
+        tags.push("sub:accepted-but-silent(dead matcher still registered)".into());
+    }
     if resp.status == 0 {
         tags.push(format!("{kind}:connection-dropped-without-response(handler-panic)"));
     }
